@@ -175,7 +175,7 @@ def run_shard(shard, tier, seed):
     # AT&T spelling of the same instructions, as printed by the reference
     ref = gnuref.gas([b[0] for b in batch], 'intel')
     ok = [i for i, (g, msg) in enumerate(ref) if g and 'shortened' not in msg and 'truncated' not in msg]
-    att = gnuref.objdump([ref[i][0] for i in ok], 'att')
+    att = gnuref.objdump([ref[i][0] for i in ok], 'att,suffix')
     abatch = []
     seen = set()
     for i, (l, t) in zip(ok, att):
